@@ -16,7 +16,7 @@ def _c04(prop, tier, seed, t0):
 
 CHECKS["C04"] = _c04
 
-HOOK_COMMITS = ["24eb488"]
+HOOK_COMMITS = ["24eb488", "1e3405d"]
 NOT_APPLICABLE = {}
 
 _TRACE_NOTE = ("Trusted: the TLA+ rules (spec/Universe.tla, Conflict.tla, Trace_Solve.tla) state the property; TLC evaluates them; "
@@ -342,3 +342,88 @@ check.ALSO["C17"] = ["C02_UnsatButSatisfiable", "C01_V_RootReq", "C01_V_RootCons
 check.NONTRIVIAL["C17"] = ("cpp_paired", "a problem solved through C++ and through Rust, results compared")
 META["C17"] = _m("Generated problems (everything the C++ interface can express: requirements, constraints, soft requirements, unions, favored / locked / excluded candidates, hint lists) are solved through resolvo::solve with a C++ DependencyProvider and through the Rust API with the equivalent provider; the two results are placed side by side in one trace and TLC requires the identical solution sequence or the identical error text (and judges both against the oracle). The C++ drivers are compiled from the freshly built binding with AddressSanitizer and LeakSanitizer, layout static_asserts included; the container protocol is model checked (CowVector.tla) and every transition of its state graph is replayed by a C++ driver through the real Vector / String on both sides of the FFI.", "6 C17", "TLA+ trace validation (TLC) of paired C++/Rust results; TLC state graph of the copy-on-write container protocol replayed in C++ under ASan",
                  note="What TLC decides is the refcount / copy-on-write protocol and the result equality; memory errors are observed by the sanitizers during the runs, not proved absent. MSan / TSan are not used (single-threaded use).")
+
+
+def cow_check(prop, tier, seed, wd):
+    """CowVector.tla: TLC checks the protocol invariants and prints the state graph;
+    every transition is replayed in C++ on Vector<uint32_t> and Vector<String>."""
+    import collections
+    import subprocess
+    out, st = vlib.tlc("MC_CowVector.tla", f"MC_CowVector_{tier}.cfg", os.path.join(vlib.WORK, "md_cow"), workers=8,
+                       timeout=1800, java_opts="-Xss256m -Xmx6g -XX:+UseParallelGC")
+    if "No error has been found" not in out:
+        tail = "\n".join(l for l in out.splitlines() if not l.startswith('"'))[-3000:]
+        if "violated" in out:
+            d = os.path.join(vlib.REPLAYS, prop)
+            os.makedirs(d, exist_ok=True)
+            path = os.path.join(d, "cowvector_model_counterexample.txt")
+            open(path, "w").write(tail)
+            return {}, [("the CowVector model violates one of its invariants", path)]
+        raise vlib.ToolError("TLC failed on MC_CowVector:\n" + tail)
+    # rebuild the graph, BFS tree, one script per edge
+    keys, edges, init = {}, [], None
+    def kid(k):
+        return keys.setdefault(k, len(keys))
+    for line in out.splitlines():
+        if line.startswith('"INIT|'):
+            f = vlib.unescape(line[1:-1]).split("|")
+            init = kid(f[1])
+        elif line.startswith('"EDGE|'):
+            f = vlib.unescape(line[1:-1]).split("|")
+            edges.append((kid(f[1]), json.loads(f[2]), kid(f[3]), json.loads(f[4])))
+    outs = collections.defaultdict(list)
+    for i, e in enumerate(edges):
+        outs[e[0]].append(i)
+    parent = {init: None}
+    q = collections.deque([init])
+    while q:
+        s = q.popleft()
+        for ei in outs[s]:
+            t = edges[ei][2]
+            if t not in parent:
+                parent[t] = ei
+                q.append(t)
+    def path_to(s):
+        p = []
+        while parent[s] is not None:
+            p.append(parent[s])
+            s = edges[parent[s]][0]
+        return p[::-1]
+    def fmt(e):
+        _f, op, _t, obs = e
+        d = op["d"]
+        lines = [f"O {op['op']} {op['x']} {op['y']} {len(d)} " + " ".join(str(x) for x in d)]
+        parts = []
+        for h in obs:
+            parts.append(f"{1 if h['alive'] else 0} {h['rc']} {len(h['data'])} " + " ".join(str(x) for x in h["data"]))
+        lines.append(f"E {len(obs)} " + " ".join(parts))
+        return lines
+    script = os.path.join(wd, "cow.script")
+    nscripts = 0
+    with open(script, "w") as f:
+        for i, e in enumerate(edges):
+            if e[0] not in parent:
+                continue
+            f.write("S\n")
+            for pe in path_to(e[0]):
+                f.write("\n".join(fmt(edges[pe])) + "\n")
+            f.write("\n".join(fmt(e)) + "\n")
+            nscripts += 1
+    viol = []
+    env = dict(os.environ)
+    env["ASAN_OPTIONS"] = "detect_leaks=1:abort_on_error=0:exitcode=23"
+    results = {}
+    for ty in ("u32", "string"):
+        r = subprocess.run([os.path.join(vlib.VERIF, "cppdrv", "build", "replay_cow"), script, ty], capture_output=True,
+                           text=True, env=env, timeout=1800)
+        results[ty] = r.stdout.strip().splitlines()[-1] if r.stdout.strip() else ""
+        if r.returncode != 0:
+            d = os.path.join(vlib.REPLAYS, prop)
+            os.makedirs(d, exist_ok=True)
+            path = os.path.join(d, f"replay_cow_{ty}.txt")
+            open(path, "w").write(f"script: {script}\nexit: {r.returncode}\n{r.stdout[-3000:]}\n{r.stderr[-6000:]}")
+            viol.append((f"container replay (Vector<{ty}>) exit code {r.returncode}: "
+                         + (r.stdout.strip().splitlines()[0] if r.stdout.strip() else "sanitizer report"), path))
+    vlib.log(f"[{prop}] CowVector: {st['distinct']} states, {len(edges)} transitions replayed per element type: {results}")
+    return {"cow_states": st["distinct"], "cow_transitions": st["states"], "cow_edges_replayed": len(edges) * 2,
+            "cow_scripts": nscripts, "cow_results": results}, viol
